@@ -68,7 +68,7 @@ def _run_chunk(exe, lines, env, is_model, timeout):
         rec = {kind: (m.group(1) if m else ("rc=%s %s" % (rc, errtxt[-300:])))[:400]}
         if fire:
             rec["entry"] = fire[-1]     # the allocation fault that preceded the crash (C20)
-        fr = re.search(r"#\d+ 0x[0-9a-f]+ in (\w+) /repo/(\S+)", errtxt)
+        fr = re.search(r"#\d+ 0x[0-9a-f]+ in (\w+) " + re.escape(build_repo.REPO) + r"/(\S+)", errtxt)
         if fr:
             rec["frame"] = "%s %s" % (fr.group(1), fr.group(2))
         out.append(json.dumps(rec))
